@@ -3,6 +3,7 @@
 //! Usage: msimc <ID> <quick|thorough> | msimc replay <file> | msimc selftest
 
 mod c02;
+mod c03e2;
 mod c06;
 mod c07;
 mod c09;
@@ -71,6 +72,7 @@ fn run(args: &[String]) -> i32 {
                 "C18" => c18::replay(r),
                 "C19" => c19::replay(r),
                 "C01" | "C03" | "C04" | "C05" | "C08" | "C10" | "C11" if r["kind"] == "e1-history" => e1::replay_history(r),
+                "C03" if r["kind"] == "c03-cond" => c03e2::replay(r),
                 other => println!("no replayer for {}", other),
             }
             0
